@@ -54,6 +54,7 @@ type Stats struct {
 	Errors   int
 	Seconds  float64
 	Restarts int
+	FreshRetries int
 }
 
 // Solver is a persistent SMT solver process fed through a pipe.
@@ -76,6 +77,7 @@ type Solver struct {
 	LogQueries    bool
 	LastScript    string
 	NoTactic      bool
+	NoFresh       bool
 	pureMemo      map[int]bool
 }
 
@@ -189,6 +191,17 @@ func (s *Solver) emitDefs(sb *strings.Builder, t *Term, done map[int]bool) {
 			fmt.Fprintf(sb, "(define-fun %s () %s %s)\n", top.t.ref(), top.t.Sort, top.t.body(s.cvc5))
 		}
 		st = st[:len(st)-1]
+	}
+}
+
+// markDone marks every non-leaf node reachable from t as already defined.
+func (s *Solver) markDone(t *Term, done map[int]bool) {
+	if t.Op == OConst || t.Op == OVar || done[t.ID] {
+		return
+	}
+	done[t.ID] = true
+	for _, a := range t.Args {
+		s.markDone(a, done)
 	}
 }
 
@@ -336,6 +349,54 @@ func (s *Solver) Check(assertions []*Term, timeoutMs int, values []*Term) (Resul
 					res = Sat
 				case "unsat":
 					res = Unsat
+				}
+			}
+		}
+	}
+	// last resort for unknown: a fresh solver process with the full tactic pipeline (the
+	// incremental core of a long-lived process is sometimes much weaker; measured)
+	if res == Unknown && !hasErr && !s.cvc5 && !s.NoFresh {
+		script := s.ctx.Script(assertions, s.axioms, false)
+		if len(values) > 0 {
+			var q strings.Builder
+			q.WriteString("(get-value (")
+			for _, v := range values {
+				// values may be non-leaf terms: they are defined in the script only if reachable
+				// from the assertions, so define them as well
+				q.WriteString(v.ref() + " ")
+			}
+			q.WriteString("))\n")
+			var defs strings.Builder
+			done := map[int]bool{}
+			tmp := &Solver{ctx: s.ctx}
+			for _, a := range assertions {
+				tmp.markDone(a, done)
+			}
+			for _, a := range s.axioms {
+				tmp.markDone(a, done)
+			}
+			for _, v := range values {
+				tmp.emitDefs(&defs, v, done)
+			}
+			script = strings.Replace(script, "(check-sat)\n", defs.String()+"(check-sat)\n"+q.String(), 1)
+		}
+		fr, out := OneShot(s.bin, script, 3*timeoutMs/1000+5)
+		s.St.FreshRetries++
+		if fr == Unsat {
+			res = Unsat
+		} else if fr == Sat {
+			if len(values) == 0 {
+				res = Sat
+			} else if k := strings.Index(out, "(("); k >= 0 {
+				if fv := parseValues(out[k:], values); fv != nil {
+					res = Sat
+					s.St.Queries++
+					s.St.Seconds += time.Since(t0).Seconds()
+					s.St.Sat++
+					if s.cmd != nil {
+						io.WriteString(s.in, "(pop 1)\n")
+					}
+					return res, fv
 				}
 			}
 		}
